@@ -23,7 +23,10 @@ RULE = (
     "and in logging (everything on DEBUG to files vs everything off); one variant also runs its batch of cases in reverse "
     "order, so that what an interpreter did before (other scenarios built and stepped) differs too. Oracle: per-step digests (observation, reward, every "
     "agent's action/parameters/status/normalised response data as emitted) are identical "
-    "across variants, and within a run the two episodes started by reset(seed=s) are identical. Non-trivial = a scripted "
+    "across variants, and within a run the two episodes started by reset(seed=s) are identical. Frame-size sub-check: "
+    "generated scenarios whose links carry only a few frames per step, LINKS observed, run under variants that differ "
+    "from the base in exactly one source of opaque values (clock origin/step; digits of ICMP identifiers; whole-second "
+    "time stamps): a difference names what the size of a frame depends on. Non-trivial = a scripted "
     "agent took >=1 non-idle action and the digests are not all-idle; distinct by case hash."
 )
 ASSUMPTIONS = [
@@ -159,7 +162,61 @@ def judge(case: Dict, per_variant: List[Dict], vs: List[Dict]) -> CaseResult:
     return res
 
 
+# ---------------------------------------------------------------------------------------------------------------------
+# Frame-size sub-check. A frame's size is the length of its JSON; on links whose bandwidth is a few frames per step the
+# observed load band (and admission) moves with a few bytes per frame. The variants differ from the base in ONE source of
+# "opaque" values at a time, so that a difference names its cause.
+SIZE_VARIANTS = [
+    {"label": "size-base", "hashseed": "0", "entropy": {}, "state_digest": True},
+    {"label": "size-clock", "hashseed": "0", "cause": "clock", "state_digest": True,
+     # every stamp ends in .500000: same length as any other fraction in ISO text, much shorter as a float
+     "entropy": {"clock_origin": 1_900_000_000, "clock_step_us": 1_000_000, "clock_offset_us": 500_000}},
+    {"label": "size-identifiers", "hashseed": "0", "cause": "identifier-digits", "entropy": {"bits_mode": "max"}},
+    {"label": "size-whole-second", "hashseed": "0", "cause": "whole-second-stamp",
+     "entropy": {"clock_step_us": 1_000_000, "clock_offset_us": 0}},
+]
+
+
+@st.composite
+def size_case(draw):
+    c = draw(gen_case())
+    c["spec"]["bw"] = draw(st.sampled_from([0.02, 0.05, 0.1]))
+    c["spec"]["obs"]["links"] = True
+    c["spec"]["obs"]["flatten"] = False
+    c["spec"]["agents"]["green"] = 2
+    c["mode"] = "size"
+    return c
+
+
+def judge_size(case: Dict, per_variant: List[Dict]) -> CaseResult:
+    res = CaseResult()
+    base = per_variant[0]
+    for v, r in zip(SIZE_VARIANTS[1:], per_variant[1:]):
+        d = first_diff(base, r)
+        if d is None and v.get("state_digest") and not base.get("error"):
+            # same identifiers, stamps of the same printed length: then every frame has the same size and the whole
+            # normalised simulation state (link loads, interface traffic counters) must agree, not only the load bands
+            for k, (x, y) in enumerate(zip(base["episodes"], r["episodes"])):
+                for i, (a, b) in enumerate(zip(x["steps"], y["steps"])):
+                    if a.get("state") != b.get("state"):
+                        d = ("state", f"episode {k} step {i}: normalised simulation state (link loads, traffic counters) differs")
+                        break
+                if d:
+                    break
+        if d:
+            res.violate(f"frame-size-depends-on-{v['cause']}:{d[0]}",
+                        f"tight links ({case['spec']['bw']} Mbit): variant {v['label']} (differs from the base only in "
+                        f"{v['cause']}) vs base: {d[1]}")
+    res.nontrivial = any(s["obs"] != base["episodes"][0]["steps"][0]["obs"] for ep in base["episodes"] for s in ep["steps"]) \
+        if base.get("episodes") and base["episodes"][0]["steps"] else False
+    res.label("mode:frame-size", "src:gen")
+    return res
+
+
 def run_case(case: Dict) -> CaseResult:
+    if case.get("mode") == "size":
+        outs = run_variants([case], SIZE_VARIANTS, "replay-size")
+        return judge_size(case, [o["results"][0] for o in outs])
     vs = variants(os.environ.get("VERIF_TIER_C03", "quick"))
     outs = run_variants([case], vs, "replay", history=case.get("_ran_after"))
     return judge(case, [o["results"][0] for o in outs], vs)
@@ -198,6 +255,9 @@ def gen_case(draw):
     # scenario itself declares capture on / says nothing about it
     c["spec"]["obs"]["include_nmne"] = True
     c["spec"]["nmne"] = draw(st.sampled_from([None, None, True, False]))
+    # tight links belong to the frame-size sub-check (size_case): there the variants differ in ONE source at a time
+    if c["spec"].get("bw") is not None and c["spec"]["bw"] < 1:
+        c["spec"]["bw"] = None
     acts = [o for o in c["ops"] if o[0] != "reset"] or [["step", 0]]
     s = draw(st.integers(0, 1000))
     c["ops"] = [["reset", s]] + acts + [["reset", s]] + acts
@@ -271,5 +331,11 @@ def worker(ctx: Ctx):
                 # in the reversed variant this case ran after the ones that FOLLOW it here; keep them for the replay
                 case = dict(case, _ran_after=[c for c in part[j + 1:][::-1]])
             ctx.record(case, res)
+    # frame-size sub-check (tight links, one source of opaque values varied at a time)
+    scases = collect(size_case(), 3 if q else 10, ctx.wseed * 10 + 4)
+    if scases:
+        outs = run_variants(scases, SIZE_VARIANTS, f"s{ctx.idx}")
+        for j, case in enumerate(scases):
+            ctx.record(case, judge_size(case, [o["results"][j] for o in outs]))
     if ctx.idx == 0:
         ctx.extra["variants"] = "; ".join(f"{v['label']}(PYTHONHASHSEED={v['hashseed']})" for v in vs)
